@@ -1,0 +1,45 @@
+//go:build verif
+
+// Package verifhook emits trace events for the model-based verification
+// harness. It is only active in binaries built with `-tags verif` and only
+// when the environment variable CRS_VERIF_TRACE names a file; every event is
+// one JSON object per line, numbered per process.
+package verifhook
+
+import (
+	"encoding/json"
+	"os"
+	"sync"
+)
+
+var (
+	mu   sync.Mutex
+	out  *os.File
+	seq  int
+	opened bool
+)
+
+// Emit appends one event. kv is a list of alternating keys and values.
+func Emit(event string, kv ...any) {
+	mu.Lock()
+	defer mu.Unlock()
+	if !opened {
+		opened = true
+		if path := os.Getenv("CRS_VERIF_TRACE"); path != "" {
+			out, _ = os.OpenFile(path, os.O_APPEND|os.O_CREATE|os.O_WRONLY, 0o644)
+		}
+	}
+	if out == nil {
+		return
+	}
+	seq++
+	rec := map[string]any{"ev": event, "seq": seq, "pid": os.Getpid()}
+	for i := 0; i+1 < len(kv); i += 2 {
+		if key, ok := kv[i].(string); ok {
+			rec[key] = kv[i+1]
+		}
+	}
+	if line, err := json.Marshal(rec); err == nil {
+		_, _ = out.Write(append(line, '\n'))
+	}
+}
